@@ -3,8 +3,8 @@
     that does not mention the limit, so one generic lemma gives all cases;
     that the REAL code's loop bodies do not read the limit is what the
     correspondence on pairs of limits checks. *)
-From BB Require Import Base Ref TapeModel InstrsModel MachineModel ReasonModel.
-From BB Require Import Loops MonoMachine ReasonFacts.
+From BB Require Import Base Ref TapeModel InstrsModel MachineModel ReasonModel SegmentModel.
+From BB Require Import Loops MonoMachine ReasonFacts SegmentFacts.
 
 Theorem C15_for_upto_mono : forall (St Rs : Type) (body : St -> St + Rs) n m s r,
   for_upto n body s = inr r -> n <= m -> for_upto m body s = inr r.
@@ -28,6 +28,14 @@ Theorem C15_bw_mono : forall sw comp d d', d <= d' ->
   (cant_spin_out_sw sw comp d <> Ok BwStepLimit -> cant_spin_out_sw sw comp d' = cant_spin_out_sw sw comp d).
 Proof. exact bw_mono. Qed.
 Print Assumptions C15_bw_mono.
+
+(** a settled segment verdict is kept for every larger segment limit *)
+Theorem C15_seg_mono : forall prog params goal s s',
+  2 <= s -> s <= s' ->
+  sg_segment_cant_reach prog params s goal <> Ok SgrSegmentLimit ->
+  sg_segment_cant_reach prog params s' goal = sg_segment_cant_reach prog params s goal.
+Proof. exact seg_mono. Qed.
+Print Assumptions C15_seg_mono.
 
 Example C15_nonvacuous :
   cant_halt f1_halt_prog 9 = Ok BwStepLimit /\ cant_halt f1_halt_prog 10 = Ok (BwRefuted 9) /\
